@@ -42,14 +42,22 @@ def err_name(e):
     return revfake.exc_class(e)
 
 
+LOAD_HANGS = [0]
+
+
 def load(hist):
-    """returns (sd, info) or (None, {'err': name})"""
+    """returns (sd, info) or (None, {'err': name}); a load that does not finish within the alarm
+    is reported as {'err': 'hang'} (after three of them the alarm is shortened: each costs its full length)"""
     try:
         with warnings.catch_warnings():
             warnings.simplefilter("ignore")
-            sd = revfake.make_sd(hist)
-            m = sd.revision_map
-            m._revision_map
+            with alarm(3.0 if LOAD_HANGS[0] < 3 else 0.5):
+                sd = revfake.make_sd(hist)
+                m = sd.revision_map
+                m._revision_map
+    except Hang:
+        LOAD_HANGS[0] += 1
+        return None, {"err": "hang"}
     except Exception as e:  # noqa
         return None, {"err": err_name(e)}
     revs = [m._revision_map[r["id"]] for r in hist]
